@@ -285,8 +285,8 @@ func applyDeviation(t *rapid.T, label, kind string, streams []*convStream, rpcs 
 		st.frames = append(st.frames, RawFrame{ID: st.id, Tag: st.tag, Kind: "half_close"})
 		mark(0, "")
 	case "unary_two_requests":
-		if !reqStreams(r.Shape) && len(st.frames) >= 3 {
-			// a second complete request message before half-close
+		if !reqStreams(r.Shape) && len(st.frames) >= 3 && 2*wireSize(r.Req[0]) <= 60000 {
+			// a second complete request message before half-close (both within one window: otherwise it is an overrun)
 			at := len(st.frames) - 1
 			extra := chunkFrames(st.id, st.tag, 0, wireSize(r.Req[0]), "msg")
 			st.frames = append(st.frames[:at], append(extra, st.frames[at:]...)...)
